@@ -413,6 +413,7 @@ def main(check, argv=None):
     ap.add_argument("--jobs", type=int, default=int(os.environ.get("VERIF_JOBS", "0")) or min(16, os.cpu_count() or 4))
     ap.add_argument("--only", default=None, help="substring filter on config json (debug)")
     ap.add_argument("--replay", default=None)
+    ap.add_argument("--budget", type=float, default=0, help="wall budget in seconds (thorough tier; default 1800, env VERIF_BUDGET)")
     ap.add_argument("--index", type=int, default=None, help="run only the configuration with this index (debug)")
     a = ap.parse_args(argv)
     tier = a.tier if a.tier in ("quick", "thorough") else "quick"
@@ -432,16 +433,60 @@ def main(check, argv=None):
         tv_errors = check.validate_translation() or []
     except Exception as e:  # noqa
         tv_errors = ["translation validation crashed: " + repr(e)]
-    # big configs first
-    order = sorted(range(len(cfgs)), key=lambda i: -cfgs[i].get("_cost", 1))
-    if a.jobs <= 1 or len(cfgs) == 1:
-        for i in order:
-            results.append(_worker((check, cfgs[i], tier, i)))
-    else:
-        with ProcessPoolExecutor(max_workers=a.jobs) as ex:
-            futs = [ex.submit(_worker, (check, cfgs[i], tier, i)) for i in order]
-            for f in as_completed(futs):
-                results.append(f.result())
+    budget = float(os.environ.get("VERIF_BUDGET", "0") or 0) or (a.budget if a.budget else (0 if tier == "quick" else 1800))
+    if not budget:
+        # quick tier: every configuration must complete (a configuration that cannot is a broken check)
+        order = sorted(range(len(cfgs)), key=lambda i: -cfgs[i].get("_cost", 1))
+        if a.jobs <= 1 or len(cfgs) == 1:
+            for i in order:
+                results.append(_worker((check, cfgs[i], tier, i)))
+        else:
+            with ProcessPoolExecutor(max_workers=a.jobs) as ex:
+                futs = [ex.submit(_worker, (check, cfgs[i], tier, i)) for i in order]
+                for f in as_completed(futs):
+                    results.append(f.result())
+        return finish(check, tier, seed, results, tv_errors, time.time() - t0)
+    # thorough tier: wall budget. Configurations run cheapest first in separate processes; when the budget is used up the
+    # remaining / still running ones are stopped and LISTED as not completed in the evidence (they are not counted as explored
+    # and never as success or failure: the verdict is about the completed configurations only).
+    import multiprocessing as mp
+
+    order = sorted(range(len(cfgs)), key=lambda i: cfgs[i].get("_cost", 1))
+    ctxmp = mp.get_context("fork")
+    q = ctxmp.Queue()
+
+    def child(i):
+        q.put((i, _worker((check, cfgs[i], tier, i))))
+
+    running = {}
+    pending = list(order)
+    not_done = []
+    deadline = t0 + budget
+    while pending or running:
+        now = time.time()
+        while pending and len(running) < max(1, a.jobs) and now < deadline:
+            i = pending.pop(0)
+            pr = ctxmp.Process(target=child, args=(i,), daemon=True)
+            pr.start()
+            running[i] = pr
+        try:
+            i, r = q.get(timeout=1.0)
+            results.append(r)
+            pr = running.pop(i, None)
+            if pr is not None:
+                pr.join(timeout=5)
+        except Exception:  # noqa  (queue.Empty)
+            pass
+        if time.time() >= deadline:
+            for i, pr in list(running.items()):
+                pr.terminate()
+                not_done.append(i)
+            running.clear()
+            not_done.extend(pending)
+            pending = []
+    check._not_completed = [{k: v for k, v in cfgs[i].items() if not k.startswith("_")} for i in not_done]
+    if not results:
+        results.append(_worker((check, cfgs[order[0]], tier, order[0])))
     return finish(check, tier, seed, results, tv_errors, time.time() - t0)
 
 
@@ -558,6 +603,7 @@ def finish(check, tier, seed, results, tv_errors, wall):
             "unconfirmed_candidates": unconfirmed[:10],
             "validation_mismatches": mismatches[:10],
             "known_findings_hit": sorted(known_hit),
+            "configurations_not_completed_within_budget": getattr(check, "_not_completed", []),
             "errors": errors[:10],
             "encoding": "regenerated on every run: the real functions under /repo/src are executed on symbolic object arrays",
         },
@@ -570,6 +616,8 @@ def finish(check, tier, seed, results, tv_errors, wall):
         json.dump(ev, f, indent=1)
     for l in out_lines:
         print(l)
+    if getattr(check, "_not_completed", None):
+        print(f"[{check.pid}] {len(check._not_completed)} configuration(s) not completed within the wall budget: listed in the evidence, not part of the verdict")
     print(f"[{check.pid}] tier={tier} configs={len(results)} paths={total['paths']} obligations={obligations} (T0 {t0count}) "
           f"validated={total['validated']} known={len(known_hit)} violations={nviol} inconclusive={len(inconclusive)} "
           f"unconfirmed={len(unconfirmed)} errors={len(errors)} mismatches={len(mismatches)} solver_s={solver_s:.1f} wall={wall:.1f}s")
